@@ -124,7 +124,13 @@ def run_shard(shard, tier) -> Stats:
             for n in range(a, b):
                 payload = al.payload("c05", n, 4 if n % 3 else 2)
                 for c in ctrs:
-                    pkt = sess.proto._encode_encrypted_request(c, payload)
+                    try:
+                        pkt = sess.proto._encode_encrypted_request(c, payload)
+                    except Exception as e:  # noqa: BLE001
+                        st.violation(f"request residue={(n + 2) % 16} encode raised {type(e).__name__}",
+                                     {"part": part, "key": kidx, "len": n, "counter": c}, "a packet", str(e)[:100])
+                        st.ev((part, kidx, n, c, "req"), "req-bad", True)
+                        continue
                     _check_request(st, part, kidx, sess.sk, n, c, pkt, payload)
                     if part == "enc" or c % 64 == 0:
                         _check_response(st, part, kidx, sess, n, c, payload)
@@ -138,7 +144,12 @@ def run_shard(shard, tier) -> Stats:
                 for r in range(16):
                     n = 32 + r
                     payload = al.payload("c05c", n, 3)
-                    pkt = sess.proto._encode_encrypted_request(c, payload)
+                    try:
+                        pkt = sess.proto._encode_encrypted_request(c, payload)
+                    except Exception as e:  # noqa: BLE001
+                        st.violation(f"request counter encode raised {type(e).__name__}",
+                                     {"part": part, "key": kidx, "len": n, "counter": c}, "a packet", str(e)[:100])
+                        continue
                     _check_request(st, part, kidx, sess.sk, n, c, pkt, payload)
                     _check_response(st, part, kidx, sess, n, c, payload)
         elif part == "session":
@@ -148,7 +159,11 @@ def run_shard(shard, tier) -> Stats:
             first = len(sess.dev.rx)
             for i in range(a, b):
                 payload = al.payload("c05s", i % 48, 3)
-                sess.proto.write(payload)
+                try:
+                    sess.proto.write(payload)
+                except Exception as e:  # noqa: BLE001
+                    st.violation(f"session write raised {type(e).__name__} at packet {i}", {"part": part, "index": i}, "written", str(e)[:100])
+                    break
             bad = [e for e in sess.dev.rx[first:] if not e["ok"]]
             if bad:
                 st.violation("session packet rejected by reference device", {"part": part, "index": sess.dev.rx.index(bad[0]) - first},
